@@ -38,7 +38,7 @@ def reductions(prog):
             k, i = lists(root2, [])[n]
             node = k[i]
             t = node["t"]
-            stmt = t in ("expr", "var", "let", "const", "fdecl", "block", "if", "for", "return", "throw", "try", "switch", "break", "continue", "case")
+            stmt = t in ("expr", "var", "let", "const", "fdecl", "block", "if", "for", "return", "throw", "try", "switch", "break", "continue", "case", "forof", "evalcode")
             if mode == "del":
                 if not stmt or t == "case" and False:
                     continue
@@ -51,7 +51,7 @@ def reductions(prog):
             else:
                 ci = 0 if mode == "child0" else 1
                 ch = node.get("k") or []
-                if stmt or len(ch) <= ci or not isinstance(ch[ci], dict) or ch[ci]["t"] in ("block", "case", "expr", "var", "let", "const", "return"):
+                if stmt or len(ch) <= ci or not isinstance(ch[ci], dict) or ch[ci]["t"] in ("block", "case", "expr", "var", "let", "const", "return", "arr"):
                     continue
                 if t in ("fn",):
                     continue
@@ -71,7 +71,7 @@ def valid(p):
 def main():
     src, v = sys.argv[1], sys.argv[2]
     if src.isdigit():
-        rest = json.load(open("/verif/.work/bind2/rest.json"))
+        rest = json.load(open("/verif/.work/bind3/rest.json"))
         prog = rest[int(src)][0]
     else:
         prog = json.load(open(src))
